@@ -424,6 +424,16 @@ def gen_content(rng, cls, big):
         return {'kind': 'str', 'text': ''.join(rng.choice('hello, world\n-') for _ in range(rng.randrange(1, 60))), 'cls': cls}
     if cls == 'utf8-str':
         return {'kind': 'str', 'text': ''.join(rng.choice(u'café ☃\U0001d11eÿĀ߿ࠀ￿\U00010000z') for _ in range(rng.randrange(1, 40))), 'cls': cls}
+    if cls == 'edge-str':
+        # text whose first / last / only characters are ones that readers like to drop: byte-order mark, NUL, line and paragraph
+        # separators, next-line, trailing blanks, a lone CR
+        pre = rng.choice([u'\ufeff', u'\ufeff\ufeff', u'\x00', u'\u2028', u'\x85', u' ', u'\t', u'\r', u'\ufffe'])
+        post = rng.choice([u'', u'\ufeff', u'\x00', u' \t', u'\r', u'\x1a', u'\u2029'])
+        mid = ''.join(rng.choice(u'ab\n é') for _ in range(rng.randrange(0, 12)))
+        return {'kind': 'str', 'text': pre + mid + post, 'cls': cls}
+    if cls == 'edge-bytes':
+        pre = rng.choice([b'\xef\xbb\xbf', b'\xff\xfe', b'\xfe\xff', b'\x00', b'\x1a', b'\r'])
+        return {'kind': 'bytes', 'hex': (pre + bytes(rng.choice(b'ab\n ') for _ in range(rng.randrange(0, 12))) + rng.choice([b'', b'\x00', b'\x1a', b'\r'])).hex(), 'cls': cls}
     if cls == 'utf8-bytes':
         return {'kind': 'bytes', 'hex': ''.join(rng.choice(u'naïve € 中文') for _ in range(rng.randrange(1, 40))).encode('utf-8').hex(), 'cls': cls}
     if cls.startswith('charset:'):
@@ -510,7 +520,7 @@ def _run(ctx, pgpy, d, tmp):
             ctx.notes.append('regression witness fails again: ' + label)
 
     # ---- 1. export / import sweep
-    classes = ['empty', 'empty-str', 'ascii', 'ascii-str', 'utf8-str', 'utf8-bytes', 'charset:latin-1', 'charset:cp1251', 'charset:shift_jis',
+    classes = ['empty', 'empty-str', 'ascii', 'ascii-str', 'utf8-str', 'edge-str', 'edge-bytes', 'utf8-bytes', 'charset:latin-1', 'charset:cp1251', 'charset:shift_jis',
                'charset:koi8-r', 'binary', 'all-octets']
     formats = [None, 'b', 't', 'u']
     cases = []
@@ -523,6 +533,12 @@ def _run(ctx, pgpy, d, tmp):
                     'signers': gen_signers(rng, K, i % 5, fast if ctx.quick else None), 'armor': i % 3 == 0}
             if case['filename'] == '_CONSOLE': case['sensitive'] = True
             cases.append(case); i += 1
+    # texts whose FIRST or LAST character is one a decoder may silently drop (each prefix / suffix with each textual format)
+    for j, (pre, post) in enumerate([(u'\ufeff', u''), (u'\ufeff', u'x'), (u'\ufeff\ufeff', u'y'), (u'\x00', u'\x00'), (u'\u2028', u'\u2029'), (u'\x85', u'\x85'),
+                                     (u' ', u' \t'), (u'\r', u'\r'), (u'a', u'\ufeff'), (u'\ufffe', u'\x1a')]):
+        for fmt in (None, 'u', 't'):
+            cases.append({'content': {'kind': 'str', 'text': pre + (u'k\u00e9y' if post else u'') + post, 'cls': 'edge-str'}, 'format': fmt, 'encoding': None,
+                          'filename': 'edge.txt', 'mtime': ts(T0), 'comp': (j + len(fmt or '')) % 4, 'signers': gen_signers(rng, K, j % 2, fast), 'armor': j % 4 == 0})
     # every signer count x compression, with equal and different times and every key algorithm
     for n in range(0, 5):
         for comp in range(4):
